@@ -51,6 +51,10 @@ func main() {
 		os.Exit(cmdReplay(os.Args[2:]))
 	case "selftest":
 		os.Exit(cmdSelftest(os.Args[2:]))
+	case "rules":
+		for _, id := range rules.IDs() {
+			fmt.Printf("%s\t%s\n", id, rules.Get(id).Doc)
+		}
 	case "manifest":
 		os.Exit(cmdManifest())
 	case "roles":
